@@ -1,13 +1,301 @@
 /-
-  C11 — invariances of the scores.  Property theorems only.
+  C11 — scores are invariant under changes that do not alter the structural relation.  Property theorems only
+  (helper lemmas: Proofs/Rmsd*.lean).
+
+  Metamorphic statements about the definitions (`Spec.Rmsd.*` of C07, `Spec.C08.fnat / clashes`) and about the
+  hand-written models of the routines (`Model.Rmsd.*`, and cluster C's `Model.contactRun` = `get_contact_atoms`), which
+  are tied to the code by the correspondence checks of C05 / C07 / C08 / C11.  The implementation itself is run on every
+  generated pair and on its transformed copy by py/props/c11.py.
+
+  A model run returns the ordered coordinate pairs it hands to the kernel; `mapOutcome mD mR` moves the decoy points of
+  an outcome by `mD` and the reference points by `mR` and leaves identities, order and error class untouched.  The value
+  is a function of the pairs (C07: `irmsd_is_min`, `lrmsd_is_fit_then_eval`), and `IsMinMsd` / `IsFitThenEval` do not
+  notice a rigid motion of either side (`rigid_invariant_value`).
 -/
-import PdbVerif.Spec.C11
+import PdbVerif.Proofs.RmsdScores
+import PdbVerif.Proofs.RmsdDemo
+import PdbVerif.Props.C07
+
+set_option linter.unusedVariables false
+set_option linter.unusedSectionVars false
+set_option linter.unusedTactic false
+set_option linter.unusedSimpArgs false
 
 namespace Props.C11
-open Py
+open Py Model Model.Rmsd Spec.Rmsd Spec.Inv Proofs.Rmsd Proofs.Msd Proofs.Motion Proofs.Scores
 
 theorem ignored_columns_are_the_documented_ones (i : Nat) :
-    Spec.Inv.ignoredColumn i = true ↔ (7 ≤ i + 1 ∧ i + 1 ≤ 11) ∨ (55 ≤ i + 1 ∧ i + 1 ≤ 66) ∨ (77 ≤ i + 1 ∧ i + 1 ≤ 78) := by
-  simp [Spec.Inv.ignoredColumn]; omega
+    ignoredColumn i = true ↔ (7 ≤ i + 1 ∧ i + 1 ≤ 11) ∨ (55 ≤ i + 1 ∧ i + 1 ≤ 66) ∨ (77 ≤ i + 1 ∧ i + 1 ≤ 78) := by
+  simp [ignoredColumn]; omega
+
+/-! ### 1. rigid motion of the decoy, or of decoy and reference together -/
+
+/-- **The definition's pairs.**  Moving the decoy by ANY motion `g` moves the decoy point of every pair and changes nothing
+    else (which atoms, which order); moving decoy and reference together by a RIGID motion moves both points of every
+    pair — in particular the interface (defined through distances) is the same. -/
+theorem rigid_invariant_pairs (g : Motion Rat) (dec ref : List Atom) (c : Rat) :
+    interfacePairs (move g dec) ref c = (interfacePairs dec ref c).map (moveDecoy g) ∧
+    ligandFitPairs (move g dec) ref = (ligandFitPairs dec ref).map (moveDecoy g) ∧
+    ligandEvalPairs (move g dec) ref = (ligandEvalPairs dec ref).map (moveDecoy g) ∧
+    (g.IsRigid →
+      interfacePairs (move g dec) (move g ref) c = (interfacePairs dec ref c).map (moveBoth g) ∧
+      ligandFitPairs (move g dec) (move g ref) = (ligandFitPairs dec ref).map (moveBoth g) ∧
+      ligandEvalPairs (move g dec) (move g ref) = (ligandEvalPairs dec ref).map (moveBoth g)) :=
+  ⟨interfacePairs_moveDecoy g dec ref c, (ligandPairs_moveDecoy g dec ref).1, (ligandPairs_moveDecoy g dec ref).2,
+   fun hg => ⟨interfacePairs_moveBoth hg dec ref c, (ligandPairs_moveBoth g dec ref).1, (ligandPairs_moveBoth g dec ref).2⟩⟩
+
+/-- **The value.**  The minimum over all rigid motions of the mean squared deviation (i-RMSD), and the deviation of the
+    evaluation pairs after an optimal superposition of the fitting pairs (L-RMSD), are unchanged when every decoy point is
+    moved by one rigid motion `h`, and when every reference point is moved by one rigid motion `k` (so also when both are
+    moved together).  Over any linearly ordered field. -/
+theorem rigid_invariant_value {α : Type} [Field α] [LinearOrder α] [IsStrictOrderedRing α]
+    {h k : Motion α} (hh : h.IsRigid) (hk : k.IsRigid) (m : α) (fit ev : List (Vec3 α × Vec3 α)) :
+    (IsMinMsd m (fit.map (fun pq => (h.apply pq.1, pq.2))) ↔ IsMinMsd m fit) ∧
+    (IsMinMsd m (fit.map (fun pq => (pq.1, k.apply pq.2))) ↔ IsMinMsd m fit) ∧
+    (IsFitThenEval m (fit.map (fun pq => (h.apply pq.1, pq.2))) (ev.map (fun pq => (h.apply pq.1, pq.2))) ↔ IsFitThenEval m fit ev) ∧
+    (IsFitThenEval m (fit.map (fun pq => (pq.1, k.apply pq.2))) (ev.map (fun pq => (pq.1, k.apply pq.2))) ↔ IsFitThenEval m fit ev) :=
+  ⟨isMinMsd_moveDecoy hh m fit, isMinMsd_moveRef hk m fit, isFitThenEval_moveDecoy hh m fit ev, isFitThenEval_moveRef hk m fit ev⟩
+
+/-- a quarter turn about z followed by a translation is rigid (non-vacuity of the hypotheses above) -/
+example : (⟨⟨0, -1, 0, 1, 0, 0, 0, 0, 1⟩, ⟨1/2, -3, 20⟩⟩ : Motion ℚ).IsRigid := by
+  refine ⟨⟨?_, ?_⟩, ?_⟩ <;> simp [Mat3.mul, Mat3.T, Mat3.one, Mat3.det]
+
+/-- **The models.**  With the decoy moved by any motion `g` (tables: `move g dec`; files: the raw readers see the same
+    identities and the moved coordinates), every routine takes the same path — same error class, same atoms in the same
+    order — and hands over the moved decoy points.  With decoy and reference moved together by a RIGID motion the same
+    holds with both points moved (the zone, defined by distances in the reference, is the same). -/
+theorem rigid_invariant_models (g : Motion Rat) (dec ref : List Atom) (dl dl' rl rl' : List Str) (c : Rat)
+    (src : ZoneSrc) (check enforce : Bool) :
+    -- decoy alone
+    irmsdSql (.ok (move g dec)) (.ok ref) none c = mapOutcome g.apply id (irmsdSql (.ok dec) (.ok ref) none c) ∧
+    lrmsdSql (.ok (move g dec)) (.ok ref) enforce = mapOutcome g.apply id (lrmsdSql (.ok dec) (.ok ref) enforce) ∧
+    (RawMoved dl dl' g.apply → RawMoved rl rl' id →
+      irmsdFast dl' rl' (.ok (move g dec)) (.ok ref) src c check enforce =
+        mapOutcome g.apply id (irmsdFast dl rl (.ok dec) (.ok ref) src c check enforce) ∧
+      lrmsdFast dl' rl' (.ok (move g dec)) (.ok ref) src check enforce =
+        mapOutcome g.apply id (lrmsdFast dl rl (.ok dec) (.ok ref) src check enforce)) ∧
+    -- decoy and reference together
+    (g.IsRigid →
+      irmsdSql (.ok (move g dec)) (.ok (move g ref)) none c = mapOutcome g.apply g.apply (irmsdSql (.ok dec) (.ok ref) none c) ∧
+      lrmsdSql (.ok (move g dec)) (.ok (move g ref)) enforce = mapOutcome g.apply g.apply (lrmsdSql (.ok dec) (.ok ref) enforce) ∧
+      (RawMoved dl dl' g.apply → RawMoved rl rl' g.apply →
+        irmsdFast dl' rl' (.ok (move g dec)) (.ok (move g ref)) src c check enforce =
+          mapOutcome g.apply g.apply (irmsdFast dl rl (.ok dec) (.ok ref) src c check enforce) ∧
+        lrmsdFast dl' rl' (.ok (move g dec)) (.ok (move g ref)) src check enforce =
+          mapOutcome g.apply g.apply (lrmsdFast dl rl (.ok dec) (.ok ref) src check enforce))) := by
+  have hid : IdPreserving (id : Atom → Atom) := ⟨fun _ => rfl, fun _ => rfl, fun _ => rfl, fun _ => rfl⟩
+  have hmid : MovesBy (id : Atom → Atom) id := fun _ => rfl
+  have hcid : KeepsCutoff (id : Atom → Atom) c := fun _ _ => rfl
+  refine ⟨?_, ?_, fun h1 h2 => ⟨?_, ?_⟩, fun hg => ⟨?_, ?_, fun h1 h2 => ⟨?_, ?_⟩⟩⟩
+  · have := irmsdSql_map (moveAtom_id g) hid (moveAtom_moves g) hmid c hcid dec ref
+    simpa [move] using this
+  · have := lrmsdSql_map (moveAtom_id g) hid (moveAtom_moves g) hmid enforce dec ref
+    simpa [move] using this
+  · have := irmsdFast_map (moveAtom_id g) hid h1 h2 c hcid dec ref src check enforce
+    simpa [move] using this
+  · have := lrmsdFast_map (moveAtom_id g) hid h1 h2 dec ref src check enforce
+    simpa [move] using this
+  · exact irmsdSql_map (moveAtom_id g) (moveAtom_id g) (moveAtom_moves g) (moveAtom_moves g) c (moveAtom_keepsCutoff hg c) dec ref
+  · exact lrmsdSql_map (moveAtom_id g) (moveAtom_id g) (moveAtom_moves g) (moveAtom_moves g) enforce dec ref
+  · exact irmsdFast_map (moveAtom_id g) (moveAtom_id g) h1 h2 c (moveAtom_keepsCutoff hg c) dec ref src check enforce
+  · exact lrmsdFast_map (moveAtom_id g) (moveAtom_id g) h1 h2 dec ref src check enforce
+
+/-! ### 2. contacts depend on distances only -/
+
+/-- `get_contact_atoms` (cluster C's model, every option, every chain selection) returns the same row numbers for a
+    structure and for its image under a rigid motion; Fnat and the clash count of the definition (Spec/C08) are unchanged
+    when the decoy, or decoy and reference, are moved rigidly. -/
+theorem isometry_invariant_contacts {g : Motion Rat} (hg : g.IsRigid) (t : List Atom) (a : ContactArgs)
+    (ref dec : List Atom) (c : Rat) :
+    contactRun (move g t) a = contactRun t a ∧
+    Spec.C08.fnat c ref (move g dec) = Spec.C08.fnat c ref dec ∧
+    Spec.C08.fnat c (move g ref) (move g dec) = Spec.C08.fnat c ref dec ∧
+    Spec.C08.clashCount c (move g dec) = Spec.C08.clashCount c dec := by
+  refine ⟨contactRun_map (moveAtom_id g) a (moveAtom_keepsCutoff hg a.cutoff) t, ?_,
+    fnat_map (keeps_moveAtom hg) (keeps_moveAtom hg) rfl c ref dec, clashCount_map (keeps_moveAtom hg) c dec⟩
+  have hid : Keeps (id : Atom → Atom) :=
+    ⟨Function.injective_id, fun _ => rfl, fun _ => rfl, fun _ => rfl, fun _ => rfl, fun _ _ _ => rfl, fun _ _ _ => rfl⟩
+  have := fnat_map hid (keeps_moveAtom hg) rfl c ref dec
+  simpa using this
+
+/-! ### 3. serial number, occupancy, B-factor, element -/
+
+/-- **The record text.**  Everything a raw-column reader extracts from a record — whether it is an ATOM record, the
+    identity (chain from column 22 or 73, residue number from 23–26, name from 13–16) and the coordinates (31–54) — is the
+    same for two texts that agree outside columns 7–11, 55–66 and 77–78; hence two files that differ in those columns only
+    are read identically by all raw readers. -/
+theorem ignores_serial_occ_temp_element_text (l l' : Str) (h : LineSameButIgnored l l') :
+    isAtomLine l = isAtomLine l' ∧ rawKey l = rawKey l' ∧ rawXyz l = rawXyz l' :=
+  raw_ignores h
+
+example : LineSameButIgnored
+    "ATOM      1  N   ALA A   1       0.000   0.000   0.000  1.00  0.00           N  ".toList
+    "ATOM  98765  N   ALA A   1       0.000   0.000   0.000  0.25 77.10          FE  ".toList := by
+  refine ⟨by decide, ?_⟩
+  intro i hi
+  by_cases h80 : i < 80
+  · interval_cases i <;> first | (exfalso; revert hi; decide) | rfl
+  · have : 80 ≤ i := by omega
+    simp [List.getElem?_eq_none, this]
+
+/-- **The tables and the routines.**  When decoy and reference change in serial numbers, occupancies, B-factors and
+    element fields only (record for record), `get_contact_atoms`, the residue check and all four routines return exactly
+    the same thing, and so do the definitions (pairs, Fnat, clash count). -/
+theorem ignores_serial_occ_temp_element (dec dec' ref ref' : List Atom) (dl dl' rl rl' : List Str)
+    (hd : SameButIgnored dec dec') (hr : SameButIgnored ref ref')
+    (hdl : List.Forall₂ LineSameButIgnored dl dl') (hrl : List.Forall₂ LineSameButIgnored rl rl')
+    (a : ContactArgs) (c : Rat) (src : ZoneSrc) (check enforce : Bool) (names : Option (List Str)) :
+    contactRun ref' a = contactRun ref a ∧
+    checkResidues dec' ref' names enforce = checkResidues dec ref names enforce ∧
+    irmsdSql (.ok dec') (.ok ref') none c = irmsdSql (.ok dec) (.ok ref) none c ∧
+    lrmsdSql (.ok dec') (.ok ref') enforce = lrmsdSql (.ok dec) (.ok ref) enforce ∧
+    irmsdFast dl' rl' (.ok dec') (.ok ref') src c check enforce = irmsdFast dl rl (.ok dec) (.ok ref) src c check enforce ∧
+    lrmsdFast dl' rl' (.ok dec') (.ok ref') src check enforce = lrmsdFast dl rl (.ok dec) (.ok ref) src check enforce ∧
+    interfacePairs dec' ref' c = interfacePairs dec ref c ∧
+    Spec.C08.fnat c ref' dec' = Spec.C08.fnat c ref dec ∧ Spec.C08.clashCount c dec' = Spec.C08.clashCount c dec := by
+  have sd := map_strip_of_same hd
+  have sr := map_strip_of_same hr
+  have pd := rawPts_ignores hdl
+  have pr := rawPts_ignores hrl
+  refine ⟨?_, ?_, ?_, ?_, ?_, ?_, ?_, ?_, ?_⟩
+  · rw [← contactRun_map strip_id a (strip_cutoff a.cutoff) ref', ← contactRun_map strip_id a (strip_cutoff a.cutoff) ref, sr]
+  · rw [← checkResidues_map strip_id strip_id dec' ref', ← checkResidues_map strip_id strip_id dec ref, sd, sr]
+  · have h1 := irmsdSql_map strip_id strip_id strip_moves strip_moves c (strip_cutoff c) dec' ref'
+    have h2 := irmsdSql_map strip_id strip_id strip_moves strip_moves c (strip_cutoff c) dec ref
+    rw [mapOutcome_id] at h1 h2
+    rw [← h1, ← h2, sd, sr]
+  · have h1 := lrmsdSql_map strip_id strip_id strip_moves strip_moves enforce dec' ref'
+    have h2 := lrmsdSql_map strip_id strip_id strip_moves strip_moves enforce dec ref
+    rw [mapOutcome_id] at h1 h2
+    rw [← h1, ← h2, sd, sr]
+  · -- the raw readings of the changed files are those of the original files; the tables go through `strip`
+    have key : ∀ (A B : List Str) (D R : List Atom),
+        irmsdFast A B (.ok (D.map strip)) (.ok (R.map strip)) src c check enforce = irmsdFast A B (.ok D) (.ok R) src c check enforce := by
+      intro A B D R
+      cases hA : rawPts A with
+      | error e => exact irmsdFast_raw_error_congr hA _ _ _ _ _ _ _ _ _
+      | ok PA => exact irmsdFast_strip A B D R src c check enforce
+    exact irmsdFast_ignores pd pr sd sr src c check enforce
+  · exact lrmsdFast_ignores pd pr sd sr src check enforce
+  · unfold interfacePairs
+    have h1 := commonBackbone_map (fD := strip) (fR := strip) (kf := id) (pd := id) (pr := id) (fun _ _ h => h)
+      (fun _ => rfl) (fun _ => rfl) (fun _ => rfl) (fun _ => rfl) (fun _ => rfl) dec' ref'
+      (fun r => atInterface ref' c r.chainID r.resSeq) (fun r => atInterface (ref'.map strip) c r.chainID r.resSeq)
+      (fun r _ => by
+        have := atInterface_map (f := strip) 0 (fun _ => rfl) (fun a => by simp [strip]) c (fun _ _ => rfl) ref' r.chainID r.resSeq
+        simpa [strip] using this)
+    have h2 := commonBackbone_map (fD := strip) (fR := strip) (kf := id) (pd := id) (pr := id) (fun _ _ h => h)
+      (fun _ => rfl) (fun _ => rfl) (fun _ => rfl) (fun _ => rfl) (fun _ => rfl) dec ref
+      (fun r => atInterface ref c r.chainID r.resSeq) (fun r => atInterface (ref.map strip) c r.chainID r.resSeq)
+      (fun r _ => by
+        have := atInterface_map (f := strip) 0 (fun _ => rfl) (fun a => by simp [strip]) c (fun _ _ => rfl) ref r.chainID r.resSeq
+        simpa [strip] using this)
+    have e : ∀ l : List IdPair, l.map (fun p => (id p.1, id p.2.1, id p.2.2)) = l := fun l => by
+      conv_rhs => rw [← List.map_id l]
+    rw [e] at h1 h2
+    rw [← h1, ← h2, sd, sr]
+  · rw [← fnat_map keeps_strip keeps_strip rfl c ref' dec', ← fnat_map keeps_strip keeps_strip rfl c ref dec, sd, sr]
+  · rw [← clashCount_map keeps_strip c dec', ← clashCount_map keeps_strip c dec, sd]
+
+/-! ### 4. the same constant added to all residue numbers of both structures -/
+
+/-- Identities are mapped bijectively (`shiftKey δ` is injective), the pairs are the same pairs under the shifted
+    identities — same coordinates, same order — and Fnat and the clash count are unchanged. -/
+theorem renumber_invariant (δ : Int) (dec ref : List Atom) (c : Rat) :
+    Function.Injective (shiftKey δ) ∧
+    interfacePairs (renumber δ dec) (renumber δ ref) c = (interfacePairs dec ref c).map (shiftPair δ) ∧
+    ligandFitPairs (renumber δ dec) (renumber δ ref) = (ligandFitPairs dec ref).map (shiftPair δ) ∧
+    ligandEvalPairs (renumber δ dec) (renumber δ ref) = (ligandEvalPairs dec ref).map (shiftPair δ) ∧
+    (∀ l : List IdPair, coords (l.map (shiftPair δ)) = coords l) ∧
+    Spec.C08.fnat c (renumber δ ref) (renumber δ dec) = Spec.C08.fnat c ref dec ∧
+    Spec.C08.clashCount c (renumber δ dec) = Spec.C08.clashCount c dec :=
+  ⟨shiftKey_inj δ, interfacePairs_renumber δ dec ref c, (ligandPairs_renumber δ dec ref).1, (ligandPairs_renumber δ dec ref).2,
+   fun l => by simp [coords, shiftPair, List.map_map, Function.comp_def],
+   fnat_map (keeps_shift δ) (keeps_shift δ) rfl c ref dec, clashCount_map (keeps_shift δ) c dec⟩
+
+/-! ### 5. hydrogens (Fnat, clash count) -/
+
+/-- Adding hydrogen records (names starting with `H`) anywhere in decoy and reference — the other records staying as they
+    are, in the same order — changes neither Fnat nor the clash count. -/
+theorem hydrogens_ignored (c : Rat) (ref ref' dec dec' : List Atom)
+    (hr : HydrogensAdded ref ref') (hd : HydrogensAdded dec dec') :
+    Spec.C08.fnat c ref' dec' = Spec.C08.fnat c ref dec ∧ Spec.C08.clashCount c dec' = Spec.C08.clashCount c dec :=
+  ⟨fnat_hydrogens c (by simpa [HydrogensAdded, heavy_eq] using hr) (by simpa [HydrogensAdded, heavy_eq] using hd),
+   clashCount_hydrogens c (by simpa [HydrogensAdded, heavy_eq] using hd)⟩
+
+example : HydrogensAdded Demo.ref (Demo.mkAtom 77 "HA" "ALA" "A" 1 1 1 1 1 0 "H" :: Demo.ref) := by decide
+
+/-! ### 6. reordering the records: the same value or an explicit error -/
+
+/-- For every reordering of the records of decoy and reference (files `dl'`, `rl'` with tables `dec'`, `ref'`): if the
+    routine returned a value on the original files, then on the reordered files it either raises, or returns a value
+    computed from the SAME multiset of pairs — hence the same number (`Props.C07.rmsd_perm_invariant`).  Fnat and the clash
+    count of the definition do not depend on the order at all. -/
+theorem permutation_same_or_error (dl rl dl' rl' : List Str) (dec ref dec' ref' : List Atom)
+    (hc : Consistent dec ref) (hpd : dec'.Perm dec) (hpr : ref'.Perm ref)
+    (hd : RawAgrees dl dec) (hr : RawAgrees rl ref) (hd' : RawAgrees dl' dec') (hr' : RawAgrees rl' ref')
+    (c : Rat) (enforce : Bool) :
+    (∀ fit ev, irmsdFast dl rl (.ok dec) (.ok ref) .compute c true enforce = .value fit ev →
+      match irmsdFast dl' rl' (.ok dec') (.ok ref') .compute c true enforce with
+      | .value fit' ev' => (fit'.map idPair).Perm (fit.map idPair) ∧ (ev'.map idPair).Perm (ev.map idPair)
+      | .err _ => True) ∧
+    (∀ fit ev, irmsdSql (.ok dec) (.ok ref) none c = .value fit ev →
+      match irmsdSql (.ok dec') (.ok ref') none c with
+      | .value fit' ev' => (fit'.map idPair).Perm (fit.map idPair) ∧ (ev'.map idPair).Perm (ev.map idPair)
+      | .err _ => True) ∧
+    (∀ fit ev, lrmsdFast dl rl (.ok dec) (.ok ref) .compute true enforce = .value fit ev →
+      match lrmsdFast dl' rl' (.ok dec') (.ok ref') .compute true enforce with
+      | .value fit' ev' => (fit'.map idPair).Perm (fit.map idPair) ∧ (ev'.map idPair).Perm (ev.map idPair)
+      | .err _ => True) ∧
+    (∀ fit ev, lrmsdSql (.ok dec) (.ok ref) enforce = .value fit ev →
+      match lrmsdSql (.ok dec') (.ok ref') enforce with
+      | .value fit' ev' => (fit'.map idPair).Perm (fit.map idPair) ∧ (ev'.map idPair).Perm (ev.map idPair)
+      | .err _ => True) ∧
+    Spec.C08.fnat c ref' dec' = Spec.C08.fnat c ref dec ∧ Spec.C08.clashCount c dec' = Spec.C08.clashCount c dec := by
+  obtain ⟨p1, p2, p3, p4⟩ := Props.C07.paired_by_identity_not_position dl' rl' dec ref dec' ref' hc hpd hpr hd' hr' c enforce
+  refine ⟨?_, ?_, ?_, ?_, fnat_perm hpr hpd c, clashCount_perm hpd c⟩
+  · intro fit ev hv
+    have b := Props.C07.irmsd_pairs_fast dl rl dec ref hd hr hc .compute (Or.inl rfl) c enforce
+    rw [hv] at b
+    split at p1
+    · rename_i fit' ev' heq
+      rw [heq]
+      simp only
+      obtain ⟨h1, h2, h3⟩ := p1
+      refine ⟨h3.trans b.2.2.2.symm, ?_⟩
+      rw [h1, b.2.1]; exact h3.trans b.2.2.2.symm
+    · rename_i e heq; rw [heq]; trivial
+  · intro fit ev hv
+    have b := Props.C07.irmsd_pairs_sql dec ref hc c
+    rw [hv] at b
+    split at p2
+    · rename_i fit' ev' heq
+      rw [heq]
+      simp only
+      obtain ⟨h1, h2, h3⟩ := p2
+      refine ⟨h3.trans b.2.2.2.symm, ?_⟩
+      rw [h1, b.2.1]; exact h3.trans b.2.2.2.symm
+    · rename_i e heq; rw [heq]; trivial
+  · intro fit ev hv
+    have b := Props.C07.lrmsd_pairs_fast dl rl dec ref hd hr hc .compute (Or.inl rfl) enforce
+    rw [hv] at b
+    split at p3
+    · rename_i fit' ev' heq
+      rw [heq]
+      simp only
+      exact ⟨p3.2.1.trans b.2.2.2.1.symm, p3.2.2.trans b.2.2.2.2.symm⟩
+    · rename_i e heq; rw [heq]; trivial
+  · intro fit ev hv
+    have b := Props.C07.lrmsd_pairs_sql dec ref hc enforce
+    rw [hv] at b
+    split at p4
+    · rename_i fit' ev' heq
+      rw [heq]
+      simp only
+      exact ⟨p4.2.1.trans b.2.2.2.1.symm, p4.2.2.trans b.2.2.2.2.symm⟩
+    · rename_i e heq; rw [heq]; trivial
+
+/-- non-vacuity: the demo decoy is a reordering of a table in the reference's record order -/
+example : Demo.dec.Perm [Demo.dec[3]!, Demo.dec[2]!, Demo.dec[1]!, Demo.dec[0]!] := by decide
 
 end Props.C11
